@@ -6,6 +6,7 @@
 //! (c) logged with arguments and result.
 use crate::events::{a8, emit};
 use crate::watch;
+use injectorpp::interface::injector::__verif_lock_state as lock_state;
 use libc::{c_char, c_int, c_void, off_t, size_t};
 use serde_json::json;
 use std::cell::Cell;
@@ -204,12 +205,12 @@ pub unsafe extern "C" fn mmap(addr: *mut c_void, len: size_t, prot: c_int, flags
         QUIET_COUNT.fetch_add(1, SeqCst);
         if !failed {
             // still logged compactly: a rejected placement must be seen being unmapped
-            emit(json!({"ev":"Mmap","hint":a8(hint),"len":len,"prot":prot,"ret":a8(r),"ok":true,"how":how,"n":n,"name":format!("m{:x}", r)}));
+            emit(json!({"ev":"Mmap","hint":a8(hint),"len":len,"prot":prot,"ret":a8(r),"ok":true,"how":how,"n":n,"name":format!("m{:x}", r),"lock":lock_state()}));
         }
     } else {
         emit(json!({"ev":"Mmap","hint":a8(hint),"len":len,"prot":prot,
             "ret": if failed { json!("fail") } else { json!(a8(r)) }, "ok": !failed, "how":how,"n":n,
-            "name": if failed { String::new() } else { format!("m{:x}", r) }}));
+            "name": if failed { String::new() } else { format!("m{:x}", r) }, "lock": lock_state()}));
     }
     if failed {
         set_errno(-(r as i64) as i32);
@@ -250,7 +251,7 @@ pub unsafe extern "C" fn munmap(addr: *mut c_void, len: size_t) -> c_int {
     // a munmap that reaches outside owned mappings is logged and NOT performed (it would
     // take the harness down with it); the trace records that it was attempted.
     let r = if overlaps_foreign { 0 } else { raw_munmap(a, len) };
-    emit(json!({"ev":"Munmap","addr":a8(a),"len":len,"ret":r,"owned":owned_exact,"foreign":overlaps_foreign,"name":format!("m{:x}", a)}));
+    emit(json!({"ev":"Munmap","addr":a8(a),"len":len,"ret":r,"owned":owned_exact,"foreign":overlaps_foreign,"name":format!("m{:x}", a),"lock":lock_state()}));
     if r < 0 {
         set_errno(-r);
         return -1;
@@ -278,7 +279,7 @@ pub unsafe extern "C" fn mprotect(addr: *mut c_void, len: size_t, prot: c_int) -
         _ => raw_mprotect(addr as u64, len, prot),
     };
     emit(json!({"ev":"Mprotect","addr":a8(addr as u64),"len":len,"prot":prot,"ret":r,"n":n,
-        "writable": (prot & libc::PROT_WRITE) != 0, "covers": watch::page_covers(addr as u64, len)}));
+        "writable": (prot & libc::PROT_WRITE) != 0, "covers": watch::page_covers(addr as u64, len), "lock": lock_state()}));
     if r < 0 {
         set_errno(-r);
         return -1;
@@ -305,7 +306,7 @@ pub unsafe extern "C" fn __clear_cache(start: *mut c_char, end: *mut c_char) {
         Vec::new()
     };
     emit(json!({"ev":"Flush","start":a8(s),"end":a8(e),"len":len,"content":content,"mapped":watch::readable(s,len),
-        "covers": watch::covers(s, e)}));
+        "covers": watch::covers(s, e), "lock": lock_state()}));
 }
 
 pub fn owned_live() -> usize {
